@@ -44,7 +44,7 @@ ASSUMPTIONS = [
 KINDS = ("supervised", "semi", "knn", "unsup", "unsup_prop")
 
 
-EXPECTED_PROBES = ['second_model_alive', 'labels_propagated_after_predictions', 'model_object_refitted_mid_history', 'labels_beyond_int32', 'integer_typed_batch_predicted', 'irrelevant_public_call_between_predictions', 'training_identifiers_unlike_positions', 'non_contiguous_arrays', 'distance_matrix_unrelated_to_features', 'query_of_overflowing_magnitude', 'non_float64_features', 'index_arrays_passed_without_precomputed_distances', 'batch_longer_than_training_set', 'duplicates_inside_one_batch', 'model_', 'position_ge1_is_valid_training_index', 'query_equals_training_sample', 'query_raises_consistently', 'successful_predict_after_abort']
+EXPECTED_PROBES = ['reference_computed_in_isolated_process', 'second_model_alive', 'labels_propagated_after_predictions', 'model_object_refitted_mid_history', 'labels_beyond_int32', 'integer_typed_batch_predicted', 'irrelevant_public_call_between_predictions', 'training_identifiers_unlike_positions', 'non_contiguous_arrays', 'distance_matrix_unrelated_to_features', 'query_of_overflowing_magnitude', 'non_float64_features', 'index_arrays_passed_without_precomputed_distances', 'batch_longer_than_training_set', 'duplicates_inside_one_batch', 'model_', 'position_ge1_is_valid_training_index', 'query_equals_training_sample', 'query_raises_consistently', 'successful_predict_after_abort']
 
 
 def arms(tier):
@@ -391,6 +391,57 @@ def unpack(case, res, blen):
     return [(int(p),) for p in res]
 
 
+class ForkedReference:
+    """Singleton reference predictions computed in a child forked right after the live model
+    was fitted - before any other model exists and before the history starts - so that state
+    shared between instances (class attributes, module globals) cannot make the reference wrong
+    in the same way as the live model."""
+
+    def __init__(self, fn):
+        import json as _json
+
+        self._json = _json
+        c2p_r, c2p_w = os.pipe()
+        p2c_r, p2c_w = os.pipe()
+        pid = os.fork()
+        if pid == 0:
+            try:
+                os.close(c2p_r)
+                os.close(p2c_w)
+                rf, wf = os.fdopen(p2c_r, "r"), os.fdopen(c2p_w, "w")
+                for line in rf:
+                    q = _json.loads(line)
+                    try:
+                        rep = {"ok": list(fn(q))}
+                    except Exception as exc:  # noqa: BLE001
+                        rep = {"raises": type(exc).__name__}
+                    wf.write(_json.dumps(rep) + "\n")
+                    wf.flush()
+            finally:
+                os._exit(0)
+        os.close(c2p_w)
+        os.close(p2c_r)
+        self.pid = pid
+        self.rf, self.wf = os.fdopen(c2p_r, "r"), os.fdopen(p2c_w, "w")
+
+    def ask(self, q):
+        self.wf.write(self._json.dumps(q) + "\n")
+        self.wf.flush()
+        line = self.rf.readline()
+        return self._json.loads(line) if line else {"raises": "ReferenceProcessDied"}
+
+    def close(self):
+        try:
+            self.wf.close()
+            self.rf.close()
+        except Exception:  # noqa: BLE001
+            pass
+        try:
+            os.waitpid(self.pid, 0)
+        except Exception:  # noqa: BLE001
+            pass
+
+
 class Faulty:
     def __init__(self, fn, n):
         self.fn = fn
@@ -427,6 +478,13 @@ def run_case(case):
         facts = dict(kind=kind, metric_class=metric_class(case["metric"]), pre=case["pre"])
 
         def ref(q):
+            if oracle is not None and q not in L and q not in raises:
+                rep = oracle.ask(q)
+                if "ok" in rep:
+                    L[q] = tuple(rep["ok"])
+                else:
+                    raises[q] = rep["raises"]
+                return L.get(q)
             if q not in L and q not in raises:
                 p = copy.deepcopy(pristine)
                 try:
@@ -436,6 +494,10 @@ def run_case(case):
                     raises[q] = type(exc).__name__
             return L.get(q)
 
+        oracle = None
+        if case.get("bystander") and case.get("X2") and not case["pre"]:
+            oracle = ForkedReference(lambda q_: unpack(case, do_predict(copy.deepcopy(pristine), case, rows, [q_]), 1)[0])
+            bump(out.probes, "reference_computed_in_isolated_process")
         other = None
         if case.get("bystander") and case.get("X2") and not case["pre"]:
             try:
@@ -499,6 +561,9 @@ def run_case(case):
                 except Exception as exc:  # noqa: BLE001
                     lib_call("propagate_labels on a used model", _reraise, exc)
                 pristine = copy.deepcopy(ref_m)
+                if oracle is not None:
+                    oracle.close()
+                    oracle = None
                 L.clear()
                 raises.clear()
                 del observed[:]
@@ -533,6 +598,9 @@ def run_case(case):
                 if hasattr(m, "max_k"):
                     fit_k = (int(m.max_k), int(getattr(m, "min_k", 1)))
                 pristine = copy.deepcopy(ref_m)  # reference: a FRESH object fitted on the same data
+                if oracle is not None:
+                    oracle.close()
+                    oracle = None
                 L.clear()
                 raises.clear()
                 del observed[:]
@@ -669,6 +737,11 @@ def run_case(case):
     except OutOfDomain:
         out.ood = 1
     finally:
+        try:
+            if oracle is not None:
+                oracle.close()
+        except NameError:
+            pass
         if scratch:
             shutil.rmtree(scratch, ignore_errors=True)
     return out
